@@ -9,10 +9,13 @@ import (
 
 // Seed is one valid encoding of a catalogue entry, for harnesses that mutate encodings (C13).
 type Seed struct {
-	Name  string // "<kind>/<entry name>"
-	Kind  string // "native-envelope" | "protobuf-envelope" | "value:<type>"
-	Rep   bool   // the entry is a representative of its type (a small subset suitable for dense mutation)
-	Bytes []byte
+	Name string // "<kind>/<entry name>"
+	Kind string // "native-envelope" | "protobuf-envelope" | "value:<type>"
+	Rep  bool   // the entry is a representative of its type (a small subset suitable for dense mutation)
+	// Unstable: repeated encodings of the entry differed (an encoder iterating a Go map); Bytes
+	// is then the smallest encoding seen and may vary from run to run.
+	Unstable bool
+	Bytes    []byte
 }
 
 // EncodeEnvelope encodes an envelope with one serializer; a panic of the encoder is returned as an error.
@@ -39,20 +42,25 @@ func EncodeValue(v Codec) (b []byte, err error) {
 	return buf.Bytes(), err
 }
 
-// stable returns the smallest of up to 16 encodings, so that a seed does not depend on the
-// iteration order of a Go map inside an encoder.
-func stable(enc func() ([]byte, error)) ([]byte, error) {
-	best, err := enc()
-	if err != nil {
-		return nil, err
+// stable returns the smallest of 16 encodings and whether they differed, so that a seed depends
+// as little as possible on the iteration order of a Go map inside an encoder.
+func stable(enc func() ([]byte, error)) (best []byte, unstable bool, err error) {
+	if best, err = enc(); err != nil {
+		return nil, false, err
 	}
 	for i := 0; i < 15; i++ {
 		b, err := enc()
-		if err == nil && bytes.Compare(b, best) < 0 {
-			best = b
+		if err != nil {
+			continue
+		}
+		if c := bytes.Compare(b, best); c != 0 {
+			unstable = true
+			if c < 0 {
+				best = b
+			}
 		}
 	}
-	return best, nil
+	return best, unstable, nil
 }
 
 // Seeds returns valid encodings of the whole catalogue: every envelope with every serializer
@@ -64,15 +72,15 @@ func Seeds() (out []Seed) {
 				continue
 			}
 			e, s := e, s
-			if b, err := stable(func() ([]byte, error) { return EncodeEnvelope(s, e.New()) }); err == nil {
-				out = append(out, Seed{Name: s.String() + "-envelope/" + e.Name, Kind: s.String() + "-envelope", Rep: e.Rep, Bytes: b})
+			if b, u, err := stable(func() ([]byte, error) { return EncodeEnvelope(s, e.New()) }); err == nil {
+				out = append(out, Seed{Name: s.String() + "-envelope/" + e.Name, Kind: s.String() + "-envelope", Rep: e.Rep, Unstable: u, Bytes: b})
 			}
 		}
 	}
 	for _, v := range Values() {
 		v := v
-		if b, err := stable(func() ([]byte, error) { return EncodeValue(v.New()) }); err == nil {
-			out = append(out, Seed{Name: "value:" + v.Name, Kind: "value:" + v.Type, Rep: v.Rep, Bytes: b})
+		if b, u, err := stable(func() ([]byte, error) { return EncodeValue(v.New()) }); err == nil {
+			out = append(out, Seed{Name: "value:" + v.Name, Kind: "value:" + v.Type, Rep: v.Rep, Unstable: u, Bytes: b})
 		}
 	}
 	return
